@@ -45,7 +45,7 @@
 		}
 	}
 
-	/// @ob ku.to_u16 @props C02,C17 @kind forall @tier quick @fns rcgen::KeyUsagePurpose::to_u16
+	/// @ob ku.to_u16 @props C02,C07,C17 @kind forall @tier quick @fns rcgen::KeyUsagePurpose::to_u16
 	#[kani::proof_for_contract(KeyUsagePurpose::to_u16)]
 	fn ku_to_u16_contract() {
 		let i: u8 = kani::any();
@@ -54,7 +54,7 @@
 		let _ = ku_of(i).to_u16();
 	}
 
-	/// @ob san.tag_table @props C02 @kind forall @tier quick @fns rcgen::SanType::tag
+	/// @ob san.tag_table @props C02,C07 @kind forall @tier quick @fns rcgen::SanType::tag
 	#[kani::proof]
 	#[kani::unwind(4)]
 	fn san_tag_table() {
@@ -90,7 +90,7 @@
 		}
 	}
 
-	/// @ob ext.wrapper_bytes.critical @props C02,C04,C05 @kind bounded @tier quick @bound "OID 2.5.29.15, value = OCTET STRING of 4 symbolic bytes, critical = true" @fns rcgen::write_x509_extension
+	/// @ob ext.wrapper_bytes.critical @props C02,C04,C05,C07,C08 @kind bounded @tier quick @bound "OID 2.5.29.15, value = OCTET STRING of 4 symbolic bytes, critical = true" @fns rcgen::write_x509_extension
 	#[kani::proof]
 	#[kani::unwind(24)]
 	fn x509_extension_bytes_critical() {
@@ -104,7 +104,7 @@
 		while i < exp.len() { assert!(der[i] == exp[i]); i += 1; }
 	}
 
-	/// @ob ext.wrapper_bytes.noncritical @props C02,C04,C05 @kind bounded @tier quick @bound "OID 2.5.29.15, value = OCTET STRING of 4 symbolic bytes, critical = false (DEFAULT must be omitted)" @fns rcgen::write_x509_extension
+	/// @ob ext.wrapper_bytes.noncritical @props C02,C04,C05,C07,C08 @kind bounded @tier quick @bound "OID 2.5.29.15, value = OCTET STRING of 4 symbolic bytes, critical = false (DEFAULT must be omitted)" @fns rcgen::write_x509_extension
 	#[kani::proof]
 	#[kani::unwind(24)]
 	fn x509_extension_bytes_noncritical() {
@@ -131,7 +131,7 @@
 		while i < exp.len() { assert!(der[i] == exp[i]); i += 1; }
 	}
 
-	/// @ob keyid.prespecified @props C02,C03 @kind forall @tier quick @bound "identifier and SPKI of 4 symbolic bytes each" @fns rcgen::KeyIdMethod::derive
+	/// @ob keyid.prespecified @props C02,C03,C08,C17 @kind forall @tier quick @bound "identifier and SPKI of 4 symbolic bytes each" @fns rcgen::KeyIdMethod::derive
 	#[kani::proof]
 	#[kani::unwind(8)]
 	fn keyid_prespecified() {
@@ -143,7 +143,7 @@
 		assert!(got[0] == id[0] && got[1] == id[1] && got[2] == id[2] && got[3] == id[3]);
 	}
 
-	/// @ob serial.conversions @props C02,C04 @kind forall @tier quick @bound "u64 and 3-byte slices" @fns rcgen::SerialNumber::from_slice,rcgen::SerialNumber::to_bytes,rcgen::SerialNumber::len
+	/// @ob serial.conversions @props C02,C04,C08,C10,C17 @kind forall @tier quick @bound "u64 and 3-byte slices" @fns rcgen::SerialNumber::from_slice,rcgen::SerialNumber::to_bytes,rcgen::SerialNumber::len
 	#[kani::proof]
 	#[kani::unwind(10)]
 	fn serial_conversions() {
@@ -262,7 +262,7 @@
 	}
 
 	// ---------------------------------------------------------------- import kernels (C17), x509-parser build
-	/// @ob ku.from_u16_roundtrip @props C17 @kind forall @tier quick @timeout 900 @features "x509-parser" @bound "all 512 key-usage sets" @fns rcgen::KeyUsagePurpose::from_u16,rcgen::KeyUsagePurpose::to_u16
+	/// @ob ku.from_u16_roundtrip @props C06,C07,C10,C17 @kind forall @tier quick @timeout 900 @features "x509-parser" @bound "all 512 key-usage sets" @fns rcgen::KeyUsagePurpose::from_u16,rcgen::KeyUsagePurpose::to_u16
 	#[cfg(feature = "x509-parser")]
 	#[kani::proof]
 	#[kani::unwind(12)]
@@ -358,7 +358,7 @@
 	// ---------------------------------------------------------------- yasna primitives rcgen relies on (C04): checked on the REAL yasna code
 	// These shrink the assumed contract on yasna for exactly the calls rcgen makes; they are not a proof of yasna.
 
-	/// @ob yasna.bigint.positive_minimal @props C04,C05 @kind forall @tier quick @timeout 900 @bound "every 3-byte input (leading zeros, high bit set, all zero), positive = true" @fns yasna::DERWriter::write_bigint_bytes
+	/// @ob yasna.bigint.positive_minimal @props C02,C04,C05,C08 @kind forall @tier quick @timeout 900 @bound "every 3-byte input (leading zeros, high bit set, all zero), positive = true" @fns yasna::DERWriter::write_bigint_bytes
 	#[kani::proof]
 	#[kani::unwind(8)]
 	fn yasna_bigint_positive_minimal() {
